@@ -191,6 +191,8 @@ fn build_items(lang: &str, mode: Mode, raw: Vec<RawItem>, out: &mut Vec<Item>) {
             (Mode::Dirty, 20) => "-".to_string(),
             (Mode::Dirty, 21) => String::new(),
             (Mode::Dirty, 22) => "'".to_string(),
+            (Mode::Dirty, 23) => " -".to_string(),
+            (_, 19) => ["\n\n", "\r\n\r\n", "\n \n", "\n\n\n"][(b as usize) % 4].to_string(),
             (_, j) => SPACES[if j < 14 { 0 } else { (j as usize - 14) % SPACES.len() }].to_string(),
         };
         let mut push = |text: String, class: Class, out: &mut Vec<Item>| out.push(Item { text: recase(&text, casing), class, join: join_s.clone() });
@@ -221,7 +223,13 @@ fn build_items(lang: &str, mode: Mode, raw: Vec<RawItem>, out: &mut Vec<Item>) {
                     if extra[6] & 1 == 0 {
                         push(chain[extra[6] as usize / 2 % (chain.len() - 1)].to_string(), Class::Num, out);
                     }
-                    push(chain[chain.len() - 1].to_string(), Class::Num, out);
+                    // the top scale word, sometimes in its ordinal form where the language publishes one
+                    let top_ord: Option<&str> = match lang { "de" => Some("billionste"), "it" => Some("bilionesimo"), "nl" => Some("biljoenste"), "en" => Some("billionth"), "fr" => Some("milliardième"), _ => None };
+                    if extra[5] >= 224 && top_ord.is_some() {
+                        push(top_ord.unwrap().to_string(), Class::Ord, out);
+                    } else {
+                        push(chain[chain.len() - 1].to_string(), Class::Num, out);
+                    }
                     // low-order digits after the chain: values above 2^53 that are not exactly representable
                     if extra[5] & 1 == 0 {
                         for w in spell::cardinal(lang, 1 + (n / 1000) % 999, &mut ch) {
@@ -259,6 +267,27 @@ fn build_items(lang: &str, mode: Mode, raw: Vec<RawItem>, out: &mut Vec<Item>) {
                 }
                 push("neuf".to_string(), Class::Num, out);
             }
+            57 | 58 if lang == "fr" || lang == "it" || lang == "en" => {
+                // elisions / contractions: one token with an apostrophe, built from a clitic and a word of any class
+                let base: String = match b % 4 {
+                    0 => v.linking[idx(a, v.linking.len())].to_string(),
+                    1 => v.number_words[idx(a, v.number_words.len())].clone(),
+                    _ => v.fillers[idx(a, v.fillers.len())].to_string(),
+                };
+                let w = match lang {
+                    "fr" => format!("{}{}", ["c'", "d'", "j'", "l'", "m'", "n'", "s'", "t'", "qu'", "jusqu'", "lorsqu'", "puisqu'"][(b as usize / 4) % 12], base),
+                    "it" => format!("{}{}", ["l'", "un'", "dell'", "all'", "d'", "quell'"][(b as usize / 4) % 6], base),
+                    _ => {
+                        // English: an apostrophe inserted before the last one or two letters (we'll, it's, that'll)
+                        let n = base.chars().count();
+                        let cut = n.saturating_sub(1 + (b as usize / 4) % 2).max(1);
+                        let (h, t): (String, String) = (base.chars().take(cut).collect(), base.chars().skip(cut).collect());
+                        format!("{}'{}", h, t)
+                    }
+                };
+                // ordinary words for every oracle: none of them is a number or a linking word
+                push(w, Class::Filler, out);
+            }
             57..=71 => push(v.fillers[idx(a, v.fillers.len())].to_string(), Class::Filler, out),
             72..=77 => push(v.conj_alts[idx(a, v.conj_alts.len())].to_string(), Class::Conj, out),
             78..=82 => push(v.sep.to_string(), Class::Sep, out),
@@ -282,6 +311,15 @@ fn build_items(lang: &str, mode: Mode, raw: Vec<RawItem>, out: &mut Vec<Item>) {
                 // opening quotes / brackets stick to the following word
                 let own_join = if matches!(p.as_str(), "'" | "(" | "—") && b & 12 == 0 { String::new() } else { join_s.clone() };
                 out.push(Item { text: p, class: Class::Punct, join: own_join });
+            }
+        }
+        // stutter: the item just produced is repeated (speech-to-text output does this); rarely a long run
+        if kind < 90 && extra[4] >= 246 {
+            if let Some(last) = out.last().cloned() {
+                let reps = if extra[3] >= 250 { 20 + (extra[2] as usize % 60) } else { 1 + (extra[3] as usize % 5) };
+                for _ in 0..reps {
+                    out.push(last.clone());
+                }
             }
         }
         if mode == Mode::Dirty && kind < 90 && extra[9] >= 238 {
